@@ -388,7 +388,7 @@ static void run_case (const char *id, const char *engine) {
   if (regen_p) {
     call_ctx = ctx;
     interp_after_gen_p = 1;
-    gen_p = 0; /* units of label differences are now the interpreter's */
+    gen_p = 0;
     for (int i = 0; i < nlines; i++)
       if (is_kind (i, "lfunc") && call_lfunc (lines[i].item, 0) != -1) printf ("lfunc %d wrong result (interp after gen)\n", i);
   }
@@ -448,21 +448,24 @@ static void run_case (const char *id, const char *engine) {
            the address the cell implies for it must lie between the two ordinary labels around it
            (interp and whole-function generators keep the code order; bb versions have no order) */
         int j = atoi (l->tok[4] + 1);
-        int64_t a1, lo, hi, unit = gen_p ? 1 : (int64_t) sizeof (MIR_val_t);
+        int64_t a1, lo, hi;
         if (!label_addr (t, lab, &a1) || !label_addr (t, j, &lo)) {
           verdict = "unverified";
         } else {
-          int64_t ax = a1 - (v - disp) * unit;
+          int64_t ax = a1 - (v - disp); /* the difference is in bytes under every engine */
           verdict = bb_p                                                                    ? "ok"
                     : ax > lo && (!(j + 1 < lines[t].nlab && label_addr (t, j + 1, &hi)) || ax < hi) ? "ok"
                                                                                              : "bad";
         }
       } else {
-        int64_t a1, a2, unit = gen_p ? 1 : (int64_t) sizeof (MIR_val_t);
+        /* engine-independent: the cell is the difference IN BYTES of the two label addresses the same
+           engine hands out, plus disp; and a jmpi through address(label2) + difference reaches label */
+        int64_t a1, a2;
         if (!label_addr (t, lab, &a1) || !label_addr (t, atoi (l->tok[4]), &a2))
           verdict = "unverified";
         else
-          verdict = a1 - a2 == (v - disp) * unit ? "ok" : "bad";
+          verdict = a1 - a2 == v - disp && call_lfunc (lines[t].item, a2 + (v - disp)) == 100 + lab ? "ok"
+                                                                                                     : "bad";
       }
       printf ("lref=%s\n", verdict);
     } else {
